@@ -61,8 +61,10 @@ Case(s) == sec = s /\ ph = "case"
 (* ---- the machine section: every behaviour over a tiny event alphabet *)
 Ev == [gid : 1..2, form : {"val", "assign", "alpha", "alpha_assign"}, fam : {"Lighten", "Clamp"}, m : {"x"},
        node : {"lab"}, t : {"f64"}, in : {<<>>}, in2 : {<<>>}, args : {<< <<0, 0>> >>}, out : {<<1>>, <<2>>}]
-MCNext == \/ Enum
-          \/ Case("machine") /\ UNCHANGED <<sec, ph, p>> /\ (Reset \/ \E e \in Ev : Open(e) \/ Join(e))
+MReset == Case("machine") /\ UNCHANGED <<sec, ph, p>> /\ Reset
+MOpen == Case("machine") /\ UNCHANGED <<sec, ph, p>> /\ \E e \in Ev : Open(e)
+MJoin == Case("machine") /\ UNCHANGED <<sec, ph, p>> /\ \E e \in Ev : Join(e)
+MCNext == Enum \/ MReset \/ MOpen \/ MJoin
 MCSpec == MCInit /\ [][MCNext]_mcvars
 
 MachineInv == /\ TypeOK
@@ -80,8 +82,8 @@ Abs(d) == DyAbs(d)
 (* equality of values (two representations of one dyadic may differ in their exponent) *)
 CEq(c1, c2) == Len(c1) = Len(c2) /\ \A i \in DOMAIN c1 : DyEq(c1[i], c2[i])
 SetEq(S, T) == (\A x \in S : \E y \in T : CEq(x, y)) /\ (\A y \in T : \E x \in S : CEq(x, y))
-Cong(x, y) == HueM!Congruent(x, y)
-CD(x) == HueM!CircDist(x)
+Cong(x, y) == HueCongruent(x, y)
+CD(x) == HueCircDist(x)
 
 MixThm ==
   Case("mix") =>
@@ -133,6 +135,17 @@ IncThm ==
        /\ LET raw == IncRaw(m, x, lo, hi, f) IN (~CompWithin(raw, lo, hi) => ~IncCompOK("f32", m, x, lo, hi, f, raw))
        \* a limit expression using min for max leaves x where it is
        /\ ((m = "lighten" /\ F8[fi] > 0 /\ DyLt(x, hi)) => ~IncCompOK("f32", m, x, lo, hi, f, x))
+
+(* vacuity of the antecedents above: the lattices contain opposite, wrapping, equal and out-of-turn hue pairs,
+   factors on both sides of [0, 1], and the definitions shared with Hue.tla's text behave as documented there *)
+ASSUME Witnesses ==
+  /\ \E i, j \in 1..10 : DyEq(CD(DySub(Hv(j), Hv(i))), D180)
+  /\ \E i, j \in 1..10 : DySign(SignedDiff(Hv(i), Hv(j))) < 0 /\ DyLt(Hv(i), Hv(j))          \* wraps backwards
+  /\ \E i, j \in 1..10 : i # j /\ Cong(Hv(i), Hv(j))
+  /\ \E i \in 1..8 : F8[i] < 0 /\ \E j \in 1..8 : F8[j] > 8
+  /\ DyEq(HueMod360(DyFromInt(-90)), DyFromInt(270)) /\ DyEq(HueCanonSigned(DyFromInt(270)), DyFromInt(-90))
+  /\ DyEq(HueCanonSigned(D180), D180) /\ DyEq(HueCanonSigned(DyNeg(D180)), D180)
+  /\ DyEq(HueCircDist(Hv(10)), E8(4)) /\ UlpExp("f32", D1) = -23 /\ UlpExp("f64", D360) = -44
 
 (* the documentation's examples *)
 ASSUME DocExamples ==
